@@ -118,7 +118,7 @@ class Rope:
             if isinstance(st, K) and st.v == -1 and isinstance(lo, K) and lo.v is None and isinstance(hi, K) and hi.v is None:
                 if self.concrete():
                     return K(b''.join(v.v for v, _ in self.parts)[::-1])
-                return Term('reversed_bytes', self)
+                return Term('reversed_bytes', self.simplify())
             raise Fail(f'rope slice with symbolic bounds {lo!r}:{hi!r}')
         a, b = self._norm(lo.v, 0), self._norm(hi.v, self.n)
         return self.cut(it, a, max(a, b)).simplify()
@@ -206,7 +206,7 @@ def install(it):
     def concat(a, b):
         def bytesy(v):
             return isinstance(v, Rope) or (isinstance(v, K) and isinstance(v.v, (bytes, bytearray))) or \
-                (isinstance(v, Sym) and v.meta.get('ty') == 'bytes') or (isinstance(v, Term) and v.op in ('cat', 'to_bytes', 'sha256', 'sha512', 'crc', 'bslice', 'tobytes'))
+                (isinstance(v, Sym) and v.meta.get('ty') == 'bytes') or (isinstance(v, Term) and _nbytes(it, v) is not None)
         if bytesy(a) and bytesy(b) and not (isinstance(a, K) and isinstance(b, K)):
             ra, rb = Rope.of(it, a), Rope.of(it, b)
             if ra is not None and rb is not None:
